@@ -82,3 +82,5 @@
 ;@ghost itvalid (Array Int Bool)
 ;@ghost itkey (Array Int Real)
 ;@ghost itval (Array Int Real)
+; the byte slice a cursor hands out as its current key (ghost; stable until the cursor moves)
+;@ghost itkeyS (Array Int Slice)
